@@ -302,6 +302,28 @@ Section Group.
     apply reject_r_iff in Er. apply reject_s_iff in Es. tauto.
   Qed.
 
+  (* for in-range (r, s) and prime n, verifies never raises: in particular when
+     u1*G + u2*Q is the point at infinity (no x-coordinate) the answer is False *)
+  Theorem verifies_total Q e r s : exists b, verifies point padd smul xcoord G n Q e r s = Ok b.
+  Proof.
+    unfold verifies.
+    destruct (verifies_reject_r r n) eqn:Er; [eexists; reflexivity|].
+    destruct (verifies_reject_s s n) eqn:Es; [eexists; reflexivity|].
+    apply reject_s_iff in Es.
+    destruct (inverse_mod_prime s n n_prime (not_div_small s Es)) as [c ->]. cbn [bind].
+    destruct (xcoord _); eexists; reflexivity.
+  Qed.
+
+  Theorem verifies_infinity Q e r s c :
+    1 <= r <= n - 1 -> 1 <= s <= n - 1 -> inverse_mod s n = Ok c ->
+    xcoord (padd (smul (verifies_u1 e c n) G) (smul (verifies_u2 r c n) Q)) = None ->
+    verifies point padd smul xcoord G n Q e r s = Ok false.
+  Proof.
+    intros Hr Hs Hc Hx. unfold verifies.
+    rewrite (proj2 (reject_r_iff r n) Hr), (proj2 (reject_s_iff s n) Hs), Hc. cbn [bind].
+    rewrite Hx. reflexivity.
+  Qed.
+
   Theorem verify_digest_range {S} (sigdecode : S -> Z -> sres (Z * Z)) Q sig digest allow r s :
     sigdecode sig n = SOk (r, s) ->
     ~ (1 <= r <= n - 1) \/ ~ (1 <= s <= n - 1) ->
@@ -319,6 +341,33 @@ Section Group.
         destruct (takeN _ _); inversion E2. right; right; reflexivity.
       + destruct (_ <? _); [inversion Et; right; left; reflexivity|].
         unfold string_to_number in Et. destruct digest; inversion Et. right; right; reflexivity.
+  Qed.
+
+  Lemma truncate_errors digest allow e :
+    truncate_and_convert_digest digest n allow = SErr e -> e = SBadDigest \/ e = SBase EValue.
+  Proof.
+    unfold truncate_and_convert_digest. destruct allow.
+    - destruct (string_to_number _) as [x|e'] eqn:E2; cbn [lift sbind]; [discriminate|].
+      intro H. unfold string_to_number in E2. destruct (takeN _ _); inversion E2; subst e'.
+      inversion H. right; reflexivity.
+    - destruct (_ <? _); [intro H; inversion H; left; reflexivity|].
+      unfold string_to_number. destruct digest; cbn [lift]; intro H; inversion H. right; reflexivity.
+  Qed.
+
+  (* VerifyingKey.verify_digest raises only BadSignatureError, or BadDigestError / ValueError
+     for the digest itself, whenever the decoder raises only its documented errors *)
+  Theorem verify_digest_errors {S} (sigdecode : S -> Z -> sres (Z * Z)) Q sig digest allow e :
+    (forall e', sigdecode sig n = SErr e' -> e' = SMalformed \/ e' = SBase EUnexpectedDER) ->
+    verify_digest point padd smul xcoord G n sigdecode Q sig digest allow = SErr e ->
+    e = SBadSig \/ e = SBadDigest \/ e = SBase EValue.
+  Proof.
+    intros Hdec. unfold verify_digest.
+    destruct (truncate_and_convert_digest digest n allow) as [number|e0] eqn:Et; cbn [sbind].
+    2:{ intro H. assert (e0 = e) by congruence. subst e0. apply truncate_errors in Et. tauto. }
+    destruct (sigdecode sig n) as [[r s]|e1] eqn:Ed.
+    - cbn [sbind]. destruct (verifies_total Q number r s) as [b ->]. cbn [lift sbind].
+      destruct b; [discriminate|]. intro H; inversion H. left; reflexivity.
+    - destruct (Hdec e1 eq_refl) as [-> | ->]; cbn [sbind]; intro H; inversion H; left; reflexivity.
   Qed.
 
   (* a decoding error of the documented kinds becomes BadSignatureError *)
